@@ -18,21 +18,22 @@ RULE = ("responses = {GET,HEAD} x {persistent,not} x status{200,204,304} x 0..2 
         "Content-Length 0, duplicated Content-Length, chunked (1 chunk / 2 chunks with extension and trailer), "
         "close-delimited, none} x body{abc, empty, chunk-lookalike} x line ending{CRLF, LF} x extras{folded header, "
         "no reason phrase, HTTP/1.0, header names and the chunked/close tokens respelt UPPER / mIXED / lower, an interim 100/103 that itself carries Content-Length 0/5, Transfer-Encoding: "
-        "chunked or Connection: close}; for each: connection lost after every byte count t in 0..len, the prefix "
+        "chunked or Connection: close, surplus bytes (X / a next status line) after a length-, chunk- or "
+        "status-delimited response}; for each: connection lost after every byte count t in 0..len, the prefix "
         "delivered whole / byte-at-a-time / with every single cut, deliverBody called inside the callback / before "
         "the next event / after the loss. Checked: request Deferred fires exactly once (response as soon as the "
         "headers are complete, failure if they never are), body bytes = body bytes delivered, consumer "
         "connectionLost once with ResponseDone / PotentialDataLoss / other failure. "
         "non-trivial = executions whose truncation or cut falls strictly inside the message")
-BOUNDS = {"quick": "64 responses x every truncation x {whole, bytewise, every 1-cut} x 3 consumer timings",
+BOUNDS = {"quick": "72 responses x every truncation x {whole, bytewise, every 1-cut} x 3 consumer timings",
           "thorough": "~250 responses (full product of method x persistence x status x framing x line ending, interim x framing, bodies x framing, extras); additionally every 2-cut of each full response"}
 ASSUMPTIONS = [
     "the transport is the in-memory MemTransport: while the client has paused it nothing is delivered, so a "
     "consumer attached only after the loss sees the bytes delivered up to the pause",
-    "responses are well-formed (the statement quantifies over responses, not over garbage); no bytes follow a "
-    "complete response",
+    "responses are well-formed (the statement quantifies over responses, not over garbage); bytes that follow a "
+    "complete response (surplus variants) are only required not to be delivered as body",
 ]
-MIN = {"quick": {"evaluations": 345000, "nontrivial": 345000, "outcomes": 7},
+MIN = {"quick": {"evaluations": 380000, "nontrivial": 380000, "outcomes": 7},
        "thorough": {"evaluations": 2000000, "nontrivial": 2000000, "outcomes": 7}}
 
 TIMINGS = ["now", "before-next-event", "after-loss"]
@@ -116,6 +117,12 @@ def build(spec):
             out += tail
             marks += [False] * len(tail)
             end = len(out)
+    if extra.startswith("surplus-") and end is not None:
+        # bytes that FOLLOW the complete response (a stray byte / the next status line): they may share
+        # a delivery with the end of the body; they are not body and are not judged otherwise
+        extra_bytes = b"X" if extra == "surplus-X" else b"HTTP/1.1 200 OK\r\n"
+        out += extra_bytes
+        marks += [False] * len(extra_bytes)
     return bytes(out), H, marks, end
 
 
@@ -158,6 +165,14 @@ def specs(tier):
         add(framing="cl", extra="case-upper", persistent=True)
         add(framing="cl-dup", extra="case-mixed")
         add(framing="close", extra="case-mixed", persistent=True)
+        add(framing="cl", extra="surplus-X")
+        add(framing="cl", extra="surplus-H", persistent=True)
+        add(framing="chunked1", extra="surplus-H")
+        add(framing="chunked2", extra="surplus-X", persistent=True, eol="lf")
+        add(framing="cl", status=204, extra="surplus-X")
+        add(framing="cl", method="HEAD", extra="surplus-H", persistent=True)
+        add(framing="chunked1", status=304, extra="surplus-X")
+        add(framing="cl", body=b"", extra="surplus-X")
         add(framing="cl", extra="i100-cl0")
         add(framing="cl", extra="i103-te", persistent=True)
         add(framing="chunked1", extra="i103-cl5", eol="lf")
@@ -189,6 +204,12 @@ def specs(tier):
             for method in ("GET", "HEAD"):
                 add(method, persistent, 200, 0, framing, b"abc", "crlf")
         add("GET", False, 204, 1, framing, b"abc", "lf")
+    for framing in ("cl", "cl-dup", "chunked1", "chunked2"):
+        for surplus in ("surplus-X", "surplus-H"):
+            for persistent in (False, True):
+                for method, status in (("GET", 200), ("HEAD", 200), ("GET", 204), ("GET", 304)):
+                    add(method, persistent, status, 0, framing, b"abc", "crlf", surplus)
+                add("GET", persistent, 200, 1, framing, b"", "lf", surplus)
     for framing in ("cl", "chunked1", "chunked2", "close", "none"):
         for icode in ("100", "103"):
             for ihdr in ("cl0", "cl5", "te", "close"):
